@@ -412,7 +412,6 @@ func c05(c *fw.Ctx) {
 							if !s.decodeAndCheck(r, m, fmt.Sprintf("codeword %d xor %#02x", i, x), "qr.codewords:single", map[string]interface{}{"codeword": i, "xor": x}) {
 								return
 							}
-							r.NontrivialH(uint64(v)<<40 | uint64(l)<<32 | uint64(i))
 						}
 						r.TallyN("qr_single_codeword_positions", int64(minInt(lo+400, total)-lo))
 					})
@@ -463,7 +462,6 @@ func c05(c *fw.Ctx) {
 						if !d.decodeAndCheck(r, m, fmt.Sprintf("codeword %d xor %#02x", i, x), "dm.codewords:single", map[string]interface{}{"codeword": i, "xor": x}) {
 							return
 						}
-						r.NontrivialH(0xD<<60 | uint64(si)<<32 | uint64(i))
 					}
 					r.TallyN("dm_single_codeword_positions", int64(minInt(lo+400, total)-lo))
 				})
